@@ -8,7 +8,7 @@ EXPLANATION = (
     "value, an XPath 1.0 string expression (Literal or concat(...)) whose value is the identifier. Position arithmetic of make_xpath_query "
     "against Python list indexing. "
 )
-OUTSIDE = ("identifiers longer than 3-4 characters; characters below U+0020 or above U+D7FF; that a well-formed [@attr=string] selects exactly the "
+OUTSIDE = ("identifiers longer than 3-4 characters (4-5 in the thorough tier); characters below U+0020 or above U+D7FF; that a well-formed [@attr=string] selects exactly the "
            "equal-valued nodes is libxml2's XPath semantics (trusted); _get_between_base id predicates")
 ASSUMPTIONS = ["identifier characters in U+0020..U+D7FF (XML-legal without controls), lengths as stated per obligation"]
 TRUSTED = _T + ["libxml2's evaluation of a well-formed XPath predicate"]
@@ -35,4 +35,25 @@ OBLIGATIONS += [
         bounds="names of <= 3 characters accepted by the NamedRange.name setter", encodes=["src/odfdo/element.py:get_named_range"], stubs=_STUB),
     Obl(name="manifest", module="h_xpath", func="manifest_query", timeout=200, replay="r_h_xpath:manifest", weight=35,
         bounds="paths of <= 3 characters, any character", encodes=_ENC[3:], stubs=_STUB),
+]
+
+# thorough tier: one more character everywhere (VERIF_DEPTH=1), and the quote-alphabet obligation for every lookup
+for k in range(20):
+    OBLIGATIONS.append(Obl(name=f"lookup_{k}@d1", module="h_xpath", func="lookup_query", timeout=600, tier="thorough", env={"VERIF_K": str(k), "VERIF_DEPTH": "1"},
+                           replay="r_h_xpath:lookup", extra={"k": k}, weight=65,
+                           bounds="identifier of 1..4 characters, each any of U+0020..U+D7FF", encodes=_ENC, stubs=_STUB))
+    if k not in (0, 8, 18):
+        OBLIGATIONS.append(Obl(name=f"lookup6_{k}", module="h_xpath", func="lookup_query6", timeout=300, tier="thorough", env={"VERIF_K": str(k)},
+                               replay="r_h_xpath:lookup", extra={"k": k}, weight=40,
+                               bounds="identifier of exactly 4 characters over {a, double quote, apostrophe}", encodes=_ENC, stubs=_STUB))
+    OBLIGATIONS.append(Obl(name=f"lookup6_{k}@d1", module="h_xpath", func="lookup_query6", timeout=900, tier="thorough", env={"VERIF_K": str(k), "VERIF_DEPTH": "1"},
+                           replay="r_h_xpath:lookup", extra={"k": k}, weight=130,
+                           bounds="identifier of exactly 5 characters over {a, double quote, apostrophe}", encodes=_ENC, stubs=_STUB))
+OBLIGATIONS += [
+    Obl(name="direct_two_predicates@d1", module="h_xpath", func="direct_query", timeout=1800, tier="thorough", env={"VERIF_DEPTH": "1"}, replay="r_h_xpath:direct", weight=450,
+        bounds="two identifiers (<= 3 and <= 2 characters) in one query", encodes=_ENC[:1], stubs=[]),
+    Obl(name="named_range@d1", module="h_xpath", func="named_range_query", timeout=600, tier="thorough", env={"VERIF_DEPTH": "1"}, replay="r_h_xpath:named_range", weight=90,
+        bounds="names of <= 4 characters accepted by the NamedRange.name setter", encodes=["src/odfdo/element.py:get_named_range"], stubs=_STUB),
+    Obl(name="manifest@d1", module="h_xpath", func="manifest_query", timeout=600, tier="thorough", env={"VERIF_DEPTH": "1"}, replay="r_h_xpath:manifest", weight=110,
+        bounds="paths of <= 4 characters, any character", encodes=_ENC[3:], stubs=_STUB),
 ]
